@@ -241,6 +241,7 @@ def minimise(scn, prop, plan, trace, klass, budget=120, wall=60.0):
 # ------------------------------------------------------------------------------------------------
 
 REPLAY_SUBDIR = None
+_KEEP = []
 
 
 def write_replay(prop, rec, tag=""):
@@ -249,7 +250,8 @@ def write_replay(prop, rec, tag=""):
         d = os.path.join(d, REPLAY_SUBDIR)
     os.makedirs(d, exist_ok=True)
     v = rec["violation"]
-    name = f"{v['scope']}-{rec['plan'].get('run_seed', 0)}-{rec.get('digest', '')[:8]}{tag}.json"
+    klass = H(v["monitor"], v.get("detail", {}).get("constraint", "")) % 100000
+    name = f"{v['scope']}-{rec['plan'].get('run_seed', 0)}-{klass:05d}-{rec.get('digest', '')[:8]}{tag}.json"
     name = name.replace("/", "_").replace(":", "_")
     p = os.path.join(d, name)
     with open(p, "w") as f:
@@ -514,6 +516,10 @@ def main(argv=None):
         print(f"idx={a.idx} digest={r['digest']} violations={len(r['violations'])} stats={r['stats']}")
         return 1 if r["violations"] else 0
     if a.replay:
+        if a.canary:  # replay a canary's file with the mutant installed (self-test of the self-test)
+            _setup_torch()
+            _KEEP.append(load_scenario(a.prop).CANARIES[a.canary]())  # keep alive: GC would undo it
+            _KEEP[-1].__enter__()
         return cmd_replay(a.prop, a.replay)
     if a.digests:
         return cmd_digests(a.prop, a.seed, a.tier, [int(x) for x in a.digests.split(",")])
